@@ -6,7 +6,7 @@ n=mt_$$
 git -C /repo worktree add --detach -q /tmp/$n HEAD || exit 2
 git -C /tmp/$n apply $p || exit 2
 mkdir -p /tmp/vc_$n && rsync -a --exclude .git --exclude seeded --exclude replays /verif/ /tmp/vc_$n/
-( cd /tmp/vc_$n && VERIF_REPO=/tmp/$n timeout 3000 ./check $c --tier $tier 2>/dev/null | grep -E "^(OK|VIOLATION|KNOWN|BROKEN)" | head -3 | cut -c1-200
+( cd /tmp/vc_$n && VERIF_REPO=/tmp/$n timeout 3000 ./check $c --tier $tier 2>/dev/null | grep -E "^(OK|VIOLATION|BROKEN)" | head -3 | cut -c1-200
   python3 - <<P
 import json,glob
 for f in sorted(glob.glob("/tmp/vc_$n/replays/$c/*.json"))[:4]:
